@@ -16,6 +16,7 @@ import random
 import subprocess
 import tempfile
 import os
+import sys
 
 import numpy as np
 import z3
@@ -393,6 +394,11 @@ def evaluate(nodes, env, exact=False, atom_env=None):
 
 # ---------------------------------------------------------------------------
 
+_SKIP_FRAMES = ('/symx/sym.py', '/symx/npx.py', '/symx/engine.py')
+_CODE_PREFIX = tuple({os.path.join(f(os.environ.get('ALGOPY_REPO', '/repo')), 'algopy') + os.sep
+                      for f in (os.path.realpath, os.path.abspath, str)})
+
+
 class Ctx(object):
     def __init__(self, mode='sym', prefix=(), assignment=None, opts=None):
         self.mode = mode
@@ -404,6 +410,9 @@ class Ctx(object):
         self.decisions = []         # bools taken (for re-execution)
         self.forks = []             # alternative prefixes discovered
         self.divisors = {}
+        self.divisor_kind = {}      # id -> 'code' | 'spec' (only tracked for the definedness check)
+        self.track_div_kind = bool(self.opts.get('definedness')) or os.environ.get('SYMX_DEFINEDNESS', '1') == '1'
+        self.spec_depth = 0         # >0 while a numpy.linalg stand-in (exact inverse/solve/det) runs
         self.positives = {}
         self.obligations = []       # (label, lhs, rhs)
         self.checks = []            # (label, BoolSym)  must hold on this path
@@ -496,6 +505,26 @@ class Ctx(object):
     def note_divisor(self, d):
         if d.id not in self.divisors:
             self.divisors[d.id] = d
+        if not self.track_div_kind:
+            return
+        # who divides?  'code' = a line of the implementation under analysis; anything
+        # else (oracle tables, DAG differentiator, factorisation contract stubs, the exact
+        # inverse/solve standing for numpy.linalg) is part of the specification side, whose
+        # divisors delimit the domain on which the property is stated
+        if self.divisor_kind.get(d.id) == 'spec':
+            return
+        kind = 'spec'
+        if not self.spec_depth:
+            f = sys._getframe(1)
+            while f is not None:
+                fn = f.f_code.co_filename
+                if fn.endswith(_SKIP_FRAMES):
+                    f = f.f_back
+                    continue
+                if fn.startswith(_CODE_PREFIX):
+                    kind = 'code'
+                break
+        self.divisor_kind[d.id] = kind
 
     def note_positive(self, d, why=''):
         if d.op != 'const' and d.id not in self.positives:
@@ -590,13 +619,13 @@ class Ctx(object):
         self.notes.append(s)
 
     # -- branching ---------------------------------------------------------------
-    def _base_asserts(self, smt):
+    def _base_asserts(self, smt, divisors=True):
         out = []
         for b in self.assumptions:
             out.append(smt.boolean(b))
         for b in self.path:
             out.append(smt.boolean(b))
-        for d in self.divisors.values():
+        for d in (self.divisors.values() if divisors else ()):
             n, dd = self.nf.of(d)
             out.append('(not (= %s 0))' % smt.term(n))
         for d in self.positives.values():
